@@ -131,7 +131,8 @@ def stmt_ast(s, seq):
             guard = to_ast(arm[2]) if len(arm) > 2 and arm[2] is not None else None
             cases.append(ast.match_case(pattern=ast.MatchValue(value=ast.Constant(value=val)), guard=guard,
                                         body=[stmt_ast(x, seq) for x in body] or [ast.Pass()]))
-        cases.append(ast.match_case(pattern=ast.MatchAs(pattern=None, name=None), guard=None,
+        dguard = to_ast(s[4]) if len(s) > 4 and s[4] is not None else None      # `case _ if cond:`
+        cases.append(ast.match_case(pattern=ast.MatchAs(pattern=None, name=None), guard=dguard,
                                     body=[stmt_ast(x, seq) for x in (s[3] or [])] or [ast.Pass()]))
         return ast.Match(subject=to_ast(s[1]), cases=cases)
     if k == 'while':
@@ -257,6 +258,9 @@ def features(prog):
                 if len(arm) > 2 and arm[2] is not None:
                     fs.add('match-guard')
                     ex(arm[2])
+            if len(s) > 4 and s[4] is not None:
+                fs.add('match-guard')
+                ex(s[4])
                 for x in arm[1]:
                     stv(x)
             for x in s[3] or []:
@@ -529,8 +533,11 @@ def programs(draw, kind=None, allow_known=False):
                             arms.append([v, block(defined, depth - 1, 2)[0]])
                     else:
                         arms.append([v, block(defined, depth - 1, 2)[0]])
-                out.append(['match', ['st', sv], arms,
-                            block(defined, depth - 1, 2)[0] if draw(st.booleans()) else None])
+                dflt = block(defined, depth - 1, 2)[0] if draw(st.booleans()) else None
+                m = ['match', ['st', sv], arms, dflt]
+                if dflt is not None and draw(st.integers(0, 3)) == 0:
+                    m.append(cond(defined, 1))           # guarded catch-all
+                out.append(m)
         return out, defined
     # every local is assigned first (no read-before-write), then a nest of statements, then every output is driven
     body = [['assign', ['loc', v], atom(set())] for v in locs]
@@ -610,6 +617,38 @@ def chain_cases(draw, n_cycles):
             if draw(st.integers(0, 2)) == 0:
                 vec[a] ^= 1 << draw(st.integers(0, w - 1))
         seq.append([vec[a] for a, _ in ins])
+    return {'kind': 'program', 'prog': prog, 'inputs': seq}
+
+
+@st.composite
+def match_cases(draw, n_cycles):
+    """small state machines written with match / case: several arms per value, guards on the arms and on the catch-all;
+    the guards look at single input bits so that they are true and false often"""
+    ins = [('a0', 2), ('a1', 1)]
+    outs = [('q0', 8)]
+    state = [('s0', draw(st.integers(0, 3))), ('s1', 0)]
+
+    def guard():
+        g = ['cmp', '==', ['bin', '&', ['in', 'a0'], ['c', draw(st.sampled_from([1, 2]))]], ['c', 0]] if draw(st.booleans()) else \
+            ['cmp', '!=', ['in', 'a1'], ['c', 0]]
+        return ['not', g] if draw(st.integers(0, 3)) == 0 else g
+
+    def arm_body():
+        b = [['assign', ['st', 's0'], ['c', draw(st.integers(0, 3))]]]
+        if draw(st.booleans()):
+            b.append(['assign', ['st', 's1'], ['bin', '&', ['bin', '+', ['st', 's1'], ['c', draw(st.integers(1, 5))]], ['c', 255]]])
+        return b
+    arms = []
+    for _ in range(draw(st.integers(1, 4))):
+        v = draw(st.integers(0, 3))
+        arms.append([v, arm_body(), guard() if draw(st.integers(0, 2)) else None])
+    dflt = arm_body() if draw(st.integers(0, 3)) else None
+    m = ['match', ['st', 's0'], arms, dflt]
+    if dflt is not None and draw(st.booleans()):
+        m.append(guard())
+    body = [m, ['out', 'q0', ['bin', '+', ['bin', '*', ['st', 's0'], ['c', 64]], ['bin', '&', ['st', 's1'], ['c', 63]]]]]
+    prog = {'kind': 'seq', 'ins': ins, 'outs': outs, 'state': state, 'consts': [], 'body': body}
+    seq = [[draw(st.integers(0, 3)), draw(st.integers(0, 1))] for _ in range(draw(st.integers(4, n_cycles)))]
     return {'kind': 'program', 'prog': prog, 'inputs': seq}
 
 
@@ -839,6 +878,7 @@ def strata(tier):
     return [
         {'name': 'programs', 'kind': 'hyp', 'examples': 400 if q else 10000, 'strategy': lambda: cases(12 if q else 30), 'run_case': run_case},
         {'name': 'flat_boolean_chains', 'kind': 'hyp', 'examples': 150 if q else 4000, 'strategy': lambda: chain_cases(10 if q else 24), 'run_case': run_case},
+        {'name': 'match_state_machines', 'kind': 'hyp', 'examples': 150 if q else 4000, 'strategy': lambda: match_cases(12 if q else 24), 'run_case': run_case},
         {'name': 'integer_literals', 'kind': 'hyp', 'examples': 120 if q else 3000, 'strategy': lambda: constant_cases(6), 'run_case': run_case},
         {'name': 'programs_with_known_triggers', 'kind': 'hyp', 'examples': 100 if q else 2000,
          'strategy': lambda: cases(8, allow_known=True), 'run_case': run_case},
